@@ -128,11 +128,12 @@ MOD_PRELUDE = ('#[allow(unused_imports)] use vstd::prelude::*;\n'
                'broadcast use {crate::spec::group_spec_axioms, crate::shims::ssri::group_ssri_axioms};\n')
 
 
-def assemble(flavour, cfg, files, active_units, ext_out):
+def assemble(flavour, cfg, files, active_units, ext_out, auto_weak=()):
     """returns (text, meta) — meta maps generated line ranges to units and obligation labels"""
     parts = []
     parts.append('// GENERATED on every run by /verif/check from /repo/src — do not edit\n')
     parts.append('#![allow(unused_imports, unused_variables, dead_code, unused_mut, unused_parens, unused_braces, non_snake_case)]\n')
+    parts.append('#![feature(allocator_api, pattern)]\n')
     parts.append('use vstd::prelude::*;\n')
     parts.append(open(os.path.join(VERIF, 'shims', 'macros.rs')).read())
     parts.append('verus! {\n')
@@ -155,6 +156,14 @@ def assemble(flavour, cfg, files, active_units, ext_out):
             parts.append(open(os.path.join(VERIF, 'shims', p)).read())
         if entry.get('close'):
             parts.append(entry['close'] + '\n')
+    if auto_weak:
+        parts.append('// ---- AUTO-WEAK specifications: std items the current /repo code uses that neither vstd nor\n'
+                     '// shims/ specify.  Declared exactly as Verus suggested, with NO ensures (result unconstrained)\n'
+                     '// and NO requires (ASSUMED not to panic).  Listed in the evidence.\n'
+                     'pub mod auto_weak {\n#[allow(unused_imports)] use vstd::prelude::*;\n')
+        for d in auto_weak:
+            parts.append(d + '\n')
+        parts.append('} // mod auto_weak\n')
     parts.append('} // mod shims\n')
 
     # module tree of the crate
@@ -387,3 +396,54 @@ def fn_times(js):
     except Exception:
         pass
     return out
+
+
+SUGGEST = re.compile(r'The following declaration may resolve this error:\n(.*?)(?:\n\s*\n|\Z)', re.S)
+
+
+def fix_suggestion(d):
+    """Verus prints some suggested declarations in a form it does not itself accept"""
+    d = re.sub(r'\b(?:std|core|alloc)::slice::<impl \[T\]>::', '<[T]>::', d)
+    d = re.sub(r'\b(?:std|core|alloc)::str::<impl str>::', 'str::', d)
+    d = re.sub(r'std::ops::FnMut\(([^)]*?),?\) \+ std::ops::FnOnce\([^)]*\)', r'std::ops::FnMut(\1)', d)
+    d = re.sub(r'std::ops::Fn\(([^)]*?),?\) \+ std::ops::FnMut\([^)]*\) \+ std::ops::FnOnce\([^)]*\)', r'std::ops::Fn(\1)', d)
+    d = re.sub(r',\s*;', ';', d)
+    if '#[verifier::external_type_specification]' in d and 'external_body' not in d:
+        d = d.replace('#[verifier::external_type_specification]', '#[verifier::external_type_specification]\n#[verifier::external_body]')
+    return d
+
+
+def suggested_decls(res):
+    """declarations Verus itself proposes for unsupported std items"""
+    out = []
+    for d in res['diags']:
+        txt = d.get('rendered') or ''
+        if 'is not supported' not in (d.get('message') or '') and 'is not supported' not in txt:
+            continue
+        for m in SUGGEST.finditer(txt):
+            lines = [re.sub(r'^\s*(=\s*help:)?\s?', '', l) for l in m.group(1).split('\n')]
+            decl = '\n'.join(l for l in lines if l.strip())
+            decl = fix_suggestion(decl.strip())
+            if decl and decl not in out:
+                out.append(decl)
+    return out
+
+
+def verify_with_auto_weak(flavour, cfg, files, active, ext, rlimit, seed, max_rounds=8):
+    """assemble + verus; if Verus rejects the file only because some std item has no
+    specification, add the declaration it proposes (no ensures) and retry"""
+    weak = []
+    for _ in range(max_rounds):
+        text, meta = assemble(flavour, cfg, files, active, ext, auto_weak=weak)
+        gen = os.path.join(BUILD, f'gen_{flavour}.rs')
+        open(gen, 'w').write(text)
+        res = run_verus(gen, rlimit=rlimit, seed=seed)
+        js = res['json']
+        rejected = js is None or js.get('verification-results', {}).get('encountered-vir-error')
+        if not rejected:
+            return text, meta, gen, res, weak
+        new = [d for d in suggested_decls(res) if d not in weak]
+        if not new:
+            return text, meta, gen, res, weak
+        weak += new
+    return text, meta, gen, res, weak
